@@ -10,7 +10,9 @@ From Coq Require Import List ZArith NArith Bool Arith Lia QArith Qcanon.
 From LMBase Require Import Res ListX.
 From Coq Require Import Qabs Permutation.
 From LMBase Require Import IEEE.
-From LMPwm Require Import GenComplement PwmModel PwmCheck PwmProofs PwmExact PwmF32 PwmCheckSound.
+From Coq Require Import Reals.
+From Flocq Require Import Core BinarySingleNaN.
+From LMPwm Require Import GenComplement PwmModel PwmCheck PwmProofs PwmExact PwmF32 PwmCheckSound PwmF32Rescale PwmF32Mirror.
 Import ListNotations.
 Local Open Scope nat_scope.
 
@@ -210,6 +212,32 @@ Theorem C10_check_mirror_sound :
     all_some (map f32_to_Q terms) = Some t -> f32_to_Q a = Some x -> f32_to_Q b = Some y ->
     (Qabs (x - y) <= (Z.of_nat (length t) # 8388608) * Qsum (map Qabs t))%Q.
 Proof. exact check_mirror_sound. Qed.
+
+(* binary32 (Flocq): "up to floating-point summation order" with an explicit bound.  The
+   two strands sum the same M cells in opposite orders; each left-to-right sum from +0.0
+   has M-1 rounded additions (the first one is exact, additions have no underflow error),
+   so the two scores differ by at most 2((1+u)^(M-1) - 1) * sum |cells|, u = 2^-24, which
+   is below the M * 2^-23 * sum |cells| of the extracted checker for M <= 4096 rows:
+   check_mirror never rejects the binary32 model (when both scores are finite). *)
+Theorem C10_revcomp_mirrors_scores_f32 :
+  forall (C : nat) (m : list (list F32.t)) (s : list nat) (i : nat) (a b : F32.t),
+    0 < C -> Forall (fun x => x < dna_K) s -> i + length m <= length s -> length m <= 4096 ->
+    score_position F32ops dna_K C m s i = Ok a ->
+    score_position F32ops dna_K C (dna_rc F32.zero m) (rc_seq dna_comp s) (length s - length m - i) = Ok b ->
+    is_finite a = true -> is_finite b = true ->
+    let terms := window_terms F32ops m s i in
+    (Rabs (B2R a - B2R b) <= 2 * ((1 + u32) ^ (length terms - 1) - 1) * Rabsum terms)%R /\
+    check_mirror terms a b = true.
+Proof.
+  intros C m s i a b HC Hs Hi Hm Ha Hb Fa Fb terms.
+  destruct (C10_revcomp_scores_sum_reversed F32.t F32ops C m s i HC Hs Hi) as [E1 E2].
+  change (n_zero F32ops) with F32.zero in *. change (n_add F32ops) with F32.add in *.
+  fold terms in E1, E2. rewrite E1 in Ha. rewrite E2 in Hb.
+  inversion Ha; subst a. inversion Hb; subst b. split.
+  - exact (mirror_error terms Fa Fb).
+  - apply mirror_model_passes_check; [|exact Fa | exact Fb].
+    unfold terms, window_terms. rewrite map2_length. lia.
+Qed.
 
 (* ---- non-vacuity / examples ---- *)
 
